@@ -73,8 +73,17 @@ func (f *Forwarded) UnmarshalXML(d *xml.Decoder, start xml.StartElement) error {
 		switch tt := t.(type) {
 
 		case xml.StartElement:
-			if packet, err := decodeClient(d, tt); err == nil {
-				f.Stanza = packet
+			switch tt.Name.Local {
+			case "message", "presence", "iq":
+				if packet, err := decodeClient(d, tt); err == nil {
+					f.Stanza = packet
+				}
+			default:
+				// Not a stanza (e.g. <delay/>): consume it entirely so that its
+				// descendants are not mistaken for children of <forwarded/>
+				if err := d.Skip(); err != nil {
+					return err
+				}
 			}
 
 		case xml.EndElement:
